@@ -299,12 +299,16 @@ def hid_of_dsa(d):
 
 
 def tables():
+    """Cipher classes of the grid, from the library by NAME (independent of the engine's own tables, so that the grid
+    and the oracle still run when the translator refuses the engine)."""
     if not TABLES:
-        T = gen_cryptotables.reflect()
         TABLES['alg_of_class'] = {cn: A[n].value for n, cn in CIPHER_OF.items()}
         TABLES['mode_of_class'] = dict(MODE_OF_CLASS)
-        TABLES['sym'] = {v: (cn, bs, ks) for v, cn, bs, ks in T['sym']}
-        TABLES['T'] = T
+        sym = {}
+        for n, cn in CIPHER_OF.items():
+            klass = R._alg_class(cn)
+            sym[A[n].value] = (cn, getattr(klass, 'block_size', None) or 0, sorted(int(k) for k in klass.key_sizes))
+        TABLES['sym'] = sym
     return TABLES
 
 
@@ -672,7 +676,10 @@ def run_mac(ctx, eng, cases, meta):
             A.TRIPLE_DES, A.AES, A.BLOWFISH, A.CAMELLIA, A.CAST5, A.IDEA, A.RC4, A.RSA, A.DES, A.HMAC_SHA3_256]
     quick = ctx.tier == 'quick'
     for ai, alg in enumerate(algs):
-        klens = [16, 24, 8, 5, 0, 32, 64, 200] if not quick else [16, 24, 8, 5, 0, 200]
+        # around both HMAC block sizes (64: MD5/SHA-1/224/256, 128: SHA-384/512) a long key is replaced by its digest
+        klens = [16, 24, 8, 5, 0, 32, 63, 64, 65, 100, 127, 128, 129, 200]
+        if quick and alg.name not in HMAC_HASH:
+            klens = [16, 24, 8, 5, 0, 200]
         for ki, kl in enumerate(klens):
             key = rbytes(rng, kl)
             lens = msg_lengths(alg if alg.value in t['sym'] else A.AES)
@@ -1192,12 +1199,13 @@ def run_server(ctx, cases, meta, rsa_cache):
         # ---------------- MAC
         for alg in [A.HMAC_SHA1, A.HMAC_SHA224, A.HMAC_SHA256, A.HMAC_SHA384, A.HMAC_SHA512, A.HMAC_MD5,
                     A.AES, A.TRIPLE_DES, A.BLOWFISH, A.CAMELLIA, A.CAST5, A.IDEA, A.RC4, A.RSA]:
+          for klen in ([16, 64, 65, 100, 128, 129] if alg.name in HMAC_HASH else [16]):
             kalg = alg if alg.value in t['sym'] else A.AES
-            key = rbytes(rng, 16)
+            key = rbytes(rng, klen)
             uid = reg_sym(kalg, key, allmask)
             if uid is None:
                 continue
-            for ln in msg_lengths(kalg)[1:]:
+            for ln in (msg_lengths(kalg)[1:] if klen == 16 else [17]):
                 data = rbytes(rng, ln)
                 o, it, calls = req(kdrv.mac(uid, kdrv.crypto_params(cryptographic_algorithm=alg), data=data))
                 ctx.count('server.mac.%s' % o.split(':')[0])
@@ -1223,25 +1231,32 @@ def run_server(ctx, cases, meta, rsa_cache):
         base = reg_sym(A.AES, base_key, allmask)
         kek_key = rbytes(rng, 32)
         kek = reg_sym(A.AES, kek_key, allmask)
+        # both object types, every method, requested lengths below / at / above the natural output of the method
+        # (digest size for HASH, cipher text length for ENCRYPT; the KDFs have none - the digest size is used)
         dtuples = []
+        OTS = (enums.ObjectType.SYMMETRIC_KEY, enums.ObjectType.SECRET_DATA)
         for method in (D.HMAC, D.HASH, D.PBKDF2, D.NIST800_108_C):
             for h in (H.MD5, H.SHA_1, H.SHA_224, H.SHA_256, H.SHA_384, H.SHA_512):
-                for bits in (128, 64, 256, 8 * R.DIGEST[HASH_ID[h.name]] + 64):
-                    dtuples.append((method, h, bits))
+                n = R.DIGEST[HASH_ID[h.name]]
+                for nbytes in sorted({1, 8, 16, 32, n - 1, n, n + 1, n + 8}):
+                    for ot in OTS:
+                        dtuples.append((method, h, nbytes, ot))
         for mode, pad in ((M.CBC, P.PKCS5), (M.ECB, P.ANSI_X923), (M.CTR, None), (M.CFB, None)):
-            for bits in (64, 128, 256):
-                dtuples.append((D.ENCRYPT, (mode, pad), bits))
-        for method, h, bits in dtuples:
+            n = 32 if pad is not None else 24         # 24 bytes of derivation data, padded to 32 in CBC / ECB
+            for nbytes in sorted({1, 8, 16, n - 1, n, n + 1}):
+                for ot in OTS:
+                    dtuples.append((D.ENCRYPT, (mode, pad), nbytes, ot))
+        for method, h, nbytes, ot in dtuples:
             data = rbytes(rng, 24)
             salt = rbytes(rng, 8)
-            nbytes = bits // 8
+            bits = nbytes * 8
             if method == D.ENCRYPT:
                 mode, pad = h
                 iv = rbytes(rng, 16)
                 cpar = kdrv.crypto_params(cryptographic_algorithm=A.AES, block_cipher_mode=mode, padding_method=pad)
                 dpar = ca.DerivationParameters(cryptographic_parameters=cpar, initialization_vector=iv, derivation_data=data)
                 prim = ref_encrypt(dict(alg=A.AES, key=base_key, mode=mode, pad=pad, aad=None), iv, data)[0]
-                pdesc = dict(method=method, mode=mode, pad=pad, bits=bits)
+                pdesc = dict(method=method, mode=mode, pad=pad, bits=bits, object_type=ot)
             else:
                 hid = HASH_ID[h.name]
                 with_data = method != D.HASH       # the handler always supplies the key: HASH needs the data absent
@@ -1250,9 +1265,12 @@ def run_server(ctx, cases, meta, rsa_cache):
                                                salt=salt if method in (D.PBKDF2, D.HMAC) else None,
                                                iteration_count=3 if method == D.PBKDF2 else None)
                 prim = ref_derive(dict(method=method, len=nbytes, data=data if with_data else None, key=base_key, salt=salt, iters=3), hid)
-                pdesc = dict(method=method, hash=h, bits=bits)
-            attrs = kdrv.sym_attrs(A.AES, bits, [CM.ENCRYPT])
-            o, it, calls = req(kdrv.derive_key([base], method, dpar, attrs=attrs))
+                pdesc = dict(method=method, hash=h, bits=bits, object_type=ot)
+            if ot == enums.ObjectType.SYMMETRIC_KEY:
+                attrs = kdrv.sym_attrs(A.AES, bits, [CM.ENCRYPT])
+            else:
+                attrs = kdrv.sym_attrs(None, bits, [CM.DERIVE_KEY])
+            o, it, calls = req(kdrv.derive_key([base], method, dpar, attrs=attrs, otype=ot))
             ctx.count('server.derive.%s.%s' % (method.name, o.split(':')[0]))
             ctx.case_seen(('srv-derive', pj(pdesc)))
             stored = b''
@@ -1260,11 +1278,12 @@ def run_server(ctx, cases, meta, rsa_cache):
                 o2, it2, _ = req(kdrv.get(kdrv.first_uid(it)))
                 stored = hx(it2['payload']['secret']['key_block']['key_value']['key_material'])
                 if len(stored) != nbytes:
-                    viol(ctx, 'DeriveKey', 'derived key material does not have exactly the requested length', pdesc, {'len': len(stored)})
+                    viol(ctx, 'DeriveKey', 'derived key material does not have exactly the requested length', pdesc,
+                         {'requested_bytes': nbytes, 'stored_bytes': len(stored), 'stored': stored.hex()})
                 if stored != prim[:nbytes]:
                     viol(ctx, 'DeriveKey', 'derived key differs from the independent reference', pdesc, {'got': stored.hex(), 'ref': prim[:nbytes].hex()})
                 # key wrapping of the derived key
-                if nbytes in (16, 24, 32, 8):
+                if nbytes in (16, 24, 32, 8) and ot == enums.ObjectType.SYMMETRIC_KEY:
                     spec = co.KeyWrappingSpecification(
                         wrapping_method=W.ENCRYPT,
                         encryption_key_information=co.EncryptionKeyInformation(
@@ -1385,7 +1404,9 @@ def run(ctx):
     ok_t = ctx.regen(only=['cryptotables', 'enums'])
     ctx.prove('props/C06.v')
     if not ok_t:
-        return
+        # broken tie T: the generated tables may be stale; still run the grid so that the direct oracle can turn the
+        # broken translation into a concrete failing input (FRAMEWORK: search before returning)
+        ctx.log('translation failed - running the grid and the direct oracle against the last generated tables')
     install_recorder()
     try:
         eng = ce.CryptographyEngine()
